@@ -224,13 +224,17 @@ def strata(tr, rng, quick):
     if tr.loop_exit:
         picks.add(tr.loop_exit[0])
     picks.update((0, 1, n - 1, n - 2, n))
+    # every step up to (and just past) the first temp-file creation: an interrupt that early meets workers that have not
+    # created their files yet and may do so while main is already on its way out
+    created = [st for (st, k, _, _) in tr.ntf if k == "create"]
+    early = list(range(0, min((min(created) + 3) if created else 12, 40)))
     for _ in range(4):
         picks.add(rng.randrange(0, n + 1))
     picks = sorted(p for p in picks if 0 <= p <= n)
     if len(picks) > 14:
         keep = set(rng.sample(picks, 14))
         picks = [p for p in picks if p in keep]
-    return picks
+    return sorted(set(picks) | set(e for e in early if e <= n))
 
 
 def run_case(seed, i, tier):
@@ -293,6 +297,8 @@ def run_case(seed, i, tier):
     n = base.trace.steps
     if base.rc in (95, 96, 98, 99) or n == 0:
         return cr
+    created0 = [st for (st, kk, _, _) in base.trace.ntf if kk == "create"]
+    early_limit = min((min(created0) + 3) if created0 else 12, 40)
     for k in strata(base.trace, rng, quick):
         p2 = core.Plan.from_json(json.loads(json.dumps(plan.to_json())))
         p2.signals = [k]
@@ -300,6 +306,17 @@ def run_case(seed, i, tier):
             p2.signals = [k, k + rng.randint(1, 40)]
         res = run_with(scn, p2)
         account(res, p2, "sigint")
+        if k < early_limit and created0:
+            # the same early interrupt, but the drawn policy (not round-robin) keeps deciding afterwards, under another seed
+            p3 = core.Plan.from_json(json.loads(json.dumps(plan.to_json())))
+            p3.signals = [k]
+            p3.post_rr = False
+            p3.policy = "random"
+            p3.stick = rng.choice((0, 300, 700))
+            p3.seed = rng.getrandbits(62)
+            p3.post_budget = 400000     # promptness is judged under round-robin only; a sticky random policy may starve main for long
+            res = run_with(scn, p3)
+            account(res, p3, "sigint(early, policy keeps deciding)")
     # ---- disk-full and broken-pipe faults (preload/seed.c): TMPDIR must be empty after these exits too ----
     tmp_total = sum(d["plain_len"] for d in descr if d.get("container"))
     io_runs = []
